@@ -95,6 +95,43 @@ Theorem crossref_variable : forall d e,
 Proof. exact crossref_value_spec_l. Qed.
 Print Assumptions crossref_variable.
 
+(* Reading the file FILTERED by the citation list (what both engines do: wanted_entries=citations,
+   add_entry pulling the crossref target of every entry it accepts into the wanted set) keeps the
+   whole chain of every wanted entry, for every chain length: the lookup in the filtered database
+   equals the lookup in the whole file -- provided keys are distinct and parents follow their
+   children in the file (finding F13 of C05/C06 is about the other order; see children_first_needed) *)
+Theorem filtered_chain_inherits : forall cits file, keys_distinct file -> children_first file ->
+  forall k e f, want_entry (Some cits) k = true -> ci_get file k = Some e ->
+  exists k', ci_get (read_filtered (Some cits) file) k = Some (rekey k' e) /\
+             entry_find_field (Some (read_filtered (Some cits) file)) (rekey k' e) f = entry_find_field (Some file) e f.
+Proof. exact filtered_chain_inherits_l. Qed.
+Print Assumptions filtered_chain_inherits.
+
+(* and the two engines, each reading the file filtered by the citations, still agree *)
+Theorem filtered_engines_agree : forall file cits minx fs, no_crossref_var fs = true ->
+  exists reports ob op,
+    bst_run_file file cits minx fs = Ok (reports, ob) /\
+    format_bibliography_file file cits minx fs = Ok (reports, op) /\
+    map snd ob = map snd op.
+Proof. exact filtered_engines_agree_l. Qed.
+Print Assumptions filtered_engines_agree.
+
+(* FINDING FC14a: "seen with the parent's value by both formatting engines" is FALSE for person
+   roles printed through the template node names(role), which is what the stock Python styles use
+   for authors and editors: the BST field and template field() see the inherited role, names() does not *)
+Theorem names_inherit_refuted :
+  exists d e role v, bst_var d e role = Ok (Some v) /\ py_var (Some d) e role = Ok (Some v) /\
+                     names_var e role = Ok None.
+Proof. exact names_inherit_refuted_l. Qed.
+Print Assumptions names_inherit_refuted.
+
+(* the strongest true variant: names() agrees with the field view for a role the entry has itself *)
+Theorem names_own_partial : forall bd e role ps,
+  ci_get (e_fields e) role = None -> ci_get (e_persons e) role = Some ps ->
+  names_var e role = py_var bd e role.
+Proof. exact names_own_partial_l. Qed.
+Print Assumptions names_own_partial.
+
 (* sensitivity (why the two fix: commits matter): without the visited test the lookup of any
    field on  @misc{a, crossref = {a}}  exhausts every fuel (Python: RecursionError, F4) ... *)
 Theorem visited_test_needed : forall fuel,
@@ -160,4 +197,20 @@ Example ex_ids_needed :
   let c := mkEntry 2 (s2l "c") [(s2l "title", s2l "T")] [] in
   let d := [(s2l "a", a); (s2l "b", b); (s2l "c", c)] in
   entry_find_field (Some d) a (s2l "title") = Ok None /\ chain_find 5 d a (s2l "title") = Some (s2l "T").
+Proof. vm_compute. split; reflexivity. Qed.
+
+(* filtered reading: the hypotheses are met by a real chain, citing the child alone keeps all three ... *)
+Example filtered_example :
+  keys_distinct fl_good /\ children_first fl_good /\
+  map fst (read_filtered (Some [s2l "C"]) fl_good) = [s2l "C"; s2l "m"; s2l "t"] /\
+  entry_find_field (Some (read_filtered (Some [s2l "C"]) fl_good)) (rekey (s2l "C") fl_child) (s2l "x") = Ok (Some (s2l "X")).
+Proof. split; [apply fl_good_ok|]. split; [apply fl_good_ok|]. vm_compute. split; reflexivity. Qed.
+(* ... and the order hypothesis is needed: with the parents first the same citation list loses them (F13) *)
+Example children_first_needed :
+  map fst (read_filtered (Some [s2l "c"]) fl_bad) = [s2l "c"] /\
+  entry_find_field (Some (read_filtered (Some [s2l "c"]) fl_bad)) fl_child (s2l "x") = Ok None /\
+  entry_find_field (Some fl_bad) fl_child (s2l "x") = Ok (Some (s2l "X")).
+Proof. vm_compute. repeat split. Qed.
+Example names_own_example :
+  names_var fc14a_parent (s2l "a") = Ok (Some (s2l "A")) /\ py_var None fc14a_parent (s2l "a") = Ok (Some (s2l "A")).
 Proof. vm_compute. split; reflexivity. Qed.
